@@ -55,6 +55,9 @@ pub struct FamParams {
     pub rows: u8,
     /// added to the fixed coefficient of main row 0 ("same circuit, one fixed cell changed")
     pub fx_tweak: u8,
+    /// an extra column whose gate is configured FIRST and whose first query is at rotation -1,
+    /// so that the first opening point of the proof is not x itself
+    pub rot_first: bool,
 }
 
 impl Default for FamParams {
@@ -80,6 +83,7 @@ impl FamParams {
             n_inst: 1,
             rows: 1,
             fx_tweak: 0,
+            rot_first: false,
         }
     }
     /// Everything on.
@@ -99,6 +103,7 @@ impl FamParams {
             n_inst,
             rows: 3,
             fx_tweak: 0,
+            rot_first: false,
         }
     }
     /// Short canonical name used in case keys.
@@ -114,6 +119,7 @@ impl FamParams {
             (self.inst_query, 'q'),
             (self.trash, 't'),
             (self.unblinded, 'u'),
+            (self.rot_first, 'z'),
         ] {
             if on {
                 s.push(c);
@@ -152,6 +158,8 @@ pub struct FamConfig {
     pub q_p2: Option<Selector>,
     pub q_p3: Option<Selector>,
     pub q_iq: Option<Selector>,
+    pub z: Option<Column<Advice>>,
+    pub q_z: Option<Selector>,
 }
 
 /// Identifier of an assigned advice cell: (region, column tag, offset in region).
@@ -314,6 +322,20 @@ impl<PL: FloorPlanner> Circuit<F> for Fam<PL> {
     }
 
     fn configure_with_params(meta: &mut ConstraintSystem<F>, p: FamParams) -> FamConfig {
+        // must come before anything else queries a column: the first advice query of the
+        // constraint system is then (z, Rotation::prev)
+        let z = p.rot_first.then(|| meta.advice_column());
+        let q_z = p.rot_first.then(|| meta.selector());
+        if let (Some(z), Some(q)) = (z, q_z) {
+            meta.create_gate("zz", |m| {
+                let z_prev = m.query_advice(z, Rotation::prev());
+                let z_cur = m.query_advice(z, Rotation::cur());
+                Constraints::with_selector(
+                    q,
+                    vec![("zz", z_cur - z_prev - Expression::Constant(F::ONE))],
+                )
+            });
+        }
         let a = meta.advice_column();
         let b = meta.advice_column();
         let c = meta.advice_column();
@@ -478,6 +500,8 @@ impl<PL: FloorPlanner> Circuit<F> for Fam<PL> {
             q_p2,
             q_p3,
             q_iq,
+            z,
+            q_z,
         }
     }
 
@@ -694,6 +718,19 @@ impl<PL: FloorPlanner> Circuit<F> for Fam<PL> {
             if let Some(cell) = inst_cell {
                 layouter.constrain_instance(cell.cell(), cfg.inst[0], 0)?;
             }
+        }
+
+        // --- the rotation-first column
+        if let (Some(q), Some(z)) = (cfg.q_z, cfg.z) {
+            layouter.assign_region(
+                || "zz",
+                |mut region| {
+                    q.enable(&mut region, 1)?;
+                    self.put(&mut region, "zz", "z", z, 0, self.wv(|w| w.xs[0]))?;
+                    self.put(&mut region, "zz", "z", z, 1, self.wv(|w| w.xs[0] + F::ONE))?;
+                    Ok(())
+                },
+            )?;
         }
 
         // --- junk: assigned cells that no constraint touches
